@@ -389,6 +389,7 @@ class FunctionReport:
     exits_normal: int = 0
     exits_exceptional: int = 0
     feasible_exits: int = 0
+    unreached: list = field(default_factory=list)
     obligations: list = field(default_factory=list)
     dropped: list = field(default_factory=list)
     assumptions: list = field(default_factory=list)
@@ -443,6 +444,7 @@ def verify_function(repo: Repo, contracts: dict, target: str, prop_id: str, max_
     rep.inlined = sorted(ex.inlined)
     rep.used_contracts = sorted(ex.used_contracts)
     rep.bounded = ex.bounded_used
+    rep.unreached = sorted(k for k, v in ex.reach.items() if v == 0)
     rep.seconds = time.time() - t0
     return rep
 
@@ -459,8 +461,7 @@ def _setup_entry(ex: Executor, c: Contract, fi: FuncInfo, fr: Frame):
             ty = Ty(c.self_class or fi.cls.name)
         elif p.annotation is not None:
             ty = parse_ann(p.annotation)
-        sv = SV(st.fresh_val("p_" + p.arg), ty)
-        ex.assume_type(sv.term, ty, fr)
+        sv = ex.fresh_sv("p_" + p.arg, ty)
         if k == 0 and fi.cls is not None and not fi.is_static and not fi.is_classmethod and c.self_class is None:
             # A-SELF-EXACT: self is dispatched as an instance of exactly the class that defines the method
             pass
@@ -533,7 +534,7 @@ def _run_path(ex: Executor, c: Contract, fi: FuncInfo, fr: Frame, short: str, re
         from .api import Ctx
         c.on_exit(Ctx(ex, fr, "exit", None), kind, result)
     # vacuity canary: this exit is reachable (the path condition is satisfiable)
-    if st.feasible():
+    if st.reachable():
         rep.feasible_exits += 1
 
 
@@ -557,3 +558,55 @@ def _check_frame(ex, c: Contract, fi, fr, short, wf):
         cond = z3.And(r >= 0, r < fr.entry_alloc, *[r != x for x in refs])
         st.check(f"{ex.prop_id}/{short}/frame:{f}", z3.ForAll([r], z3.Implies(cond, z3.Select(cur, r) == z3.Select(old, r))),
                  "frame", wf)
+
+
+def run_script(repo: Repo, contracts: dict, prop_id: str, name: str, script, timeout_ms=None, max_paths=2000,
+               module="openpectus") -> FunctionReport:
+    """Lemma over several calls of real functions: `script(ctx)` is executed once per path (decision replay); it calls
+    repo functions through ctx.call(...) and emits obligations with ctx.check(...)."""
+    from .api import Ctx
+    rep = FunctionReport(f"lemma:{name}")
+    t0 = time.time()
+    ex = Executor(repo, contracts, prop_id)
+    ex.top_qualname = None
+    ex.spec_funcs = {}
+    ex.bounded_used = False
+    work = [[]]
+    mi = repo.module(module) or next(iter(repo.modules.values()))
+    try:
+        while work:
+            prefix = work.pop()
+            rep.paths += 1
+            if rep.paths > max_paths:
+                rep.status, rep.reason = "not-verifiable", "path budget exceeded"
+                break
+            st = State(prefix, timeout_ms)
+            ex.st = st
+            ex._depth, ex._stack = 0, []
+            fr = Frame(None, mi, None)
+            fr.entry_heap, fr.entry_alloc = st.snapshot()
+            fr.entry_locals = {}
+            fi = FuncInfo(name, f"lemma:{name}", mi, None, ast.parse("def _l(): pass").body[0])
+            fr.func = fi
+            try:
+                script(Ctx(ex, fr, name, None))
+                rep.exits_normal += 1
+                if st.reachable():
+                    rep.feasible_exits += 1
+            except PathEnd:
+                pass
+            except PyRaise as e:
+                rep.exits_exceptional += 1
+                st.obligations.append(Obligation(f"{prop_id}/{name}/no-raise:{e.cls}", "exception-freedom", "failed",
+                                                 "executor", 0.0, st.path_sig(), f"{e.cls} escapes the lemma script ({e.note})"))
+            rep.obligations.extend(st.obligations)
+            rep.solver_seconds += st.solver_time
+            work.extend(st.pending)
+    except Unsupported as e:
+        rep.status, rep.reason = "not-verifiable", f"outside subset: {e}"
+    except Exception as e:
+        rep.status, rep.reason = "crashed", f"{type(e).__name__}: {e}\n{traceback.format_exc()[-1500:]}"
+    rep.dropped, rep.assumptions = sorted(ex.dropped), sorted(ex.assumptions)
+    rep.inlined, rep.used_contracts = sorted(ex.inlined), sorted(ex.used_contracts)
+    rep.seconds = time.time() - t0
+    return rep
